@@ -75,6 +75,20 @@ type pipeline struct {
 	warns      []string
 	inTemplate bool     // channels created now belong to the environment
 	facts      []string // extracted facts (e.g. "ctx0 created by context.WithTimeout")
+	timers     [][2]string // (goroutine, how the timer of one of its timer alternatives came about)
+}
+
+// timer records where the timer channel of a `tick` alternative comes from
+func (p *pipeline) timer(g, src string) {
+	if src == "" {
+		src = "unknown"
+	}
+	for _, x := range p.timers {
+		if x[0] == g && x[1] == src {
+			return
+		}
+	}
+	p.timers = append(p.timers, [2]string{g, src})
 }
 
 func (p *pipeline) newChan(name string, cap int) int {
